@@ -11,7 +11,10 @@ ASSUME = [
     'boundaries are bumped before use)',
     'surface clippers: exact real arithmetic (sqrt as exact root), boxes either infinite or finite; the interior clause tolerates points within a relative '
     '1e-8 of the surface (the property excludes points within the construction tolerance)',
-    'surface emission by the solid primitives, CSG simplification, soft surface de-duplication, transforms of boxes (calc_transform), UnitProto / '
+    'solid primitives (C09.1): Box, Sphere, Cylinder, Ellipsoid, Cone, Parallelepiped run their real build() against a recording builder (the member templates of '
+    'IntersectSurfaceBuilder are defined by the harness; JSON output is stubbed out); Prism, GenPrism, InfWedge, Involute and the hollow / '
+    'poly solids are not covered; near-equal cone radii (cylinder approximation) excluded',
+    'CSG simplification, soft surface de-duplication, transforms of boxes (calc_transform), UnitProto / '
     'InputBuilder / OrangeParams assembly (std::vector / variant / map host code) are outside the encodable reach and outside the claim; surface '
     'translation / transformation is covered under C12.6',
 ]
@@ -37,6 +40,18 @@ for na in (0, 1):
                         **(Z if vol_and else X)))
         OBLS.append(Obl('C09.4/or/' + tag, BB, 'obl_c09_zone_union', 'A' if vol_or else 'B', 'calc_union(BoundingZone) for %s: sound and valid' % tag, defines=d,
                         known=(['F5'] if na != nb else []), **(Z if vol_or else X)))
+SH = 'C09/shapes.cc'
+for e, w in [('box', 'Box'), ('sphere', 'Sphere'), ('cylinder', 'Cylinder'), ('ellipsoid', 'Ellipsoid'), ('cone', 'Cone (interior box clause: thorough tier)')]:
+    OBLS.append(Obl('C09.1/' + e, SH, 'obl_c09_shape_' + e, 'B', w + ': the real build() against a recording IntersectSurfaceBuilder: the intersection of the emitted '
+                    'signed surfaces is exactly the solid; promised exterior / interior boxes are sound', **R))
+OBLS.append(Obl('C09.1/cone+', SH, 'obl_c09_shape_cone', 'B', 'Cone incl. the inscribed interior box', defines=('VERIF_CONE_INTERIOR',), mode='real', timeout=900,
+                validate=False, tier='thorough', opts={'separate_asserts': True}))
+SCP = {'_ZN9celeritas6detail13sincospi_implEdPdS1_': 'stub_sincospi'}
+OBLS.append(Obl('C09.1/para', SH, 'obl_c09_shape_parallelepiped', 'B', 'Parallelepiped: emitted planes are exactly the documented solid (half PROJECTIONS dx, dy, dz; alpha, '
+                'theta, phi as for G4Para); sincos cut to any point of the unit circle (open known finding F10: alpha != 0)', defines=('VERIF_PARA=1',), precut=SCP,
+                known=['F10'], **R))
+OBLS.append(Obl('C09.1/para_bbox', SH, 'obl_c09_shape_parallelepiped', 'B', 'Parallelepiped (alpha = 0): the promised bounding box contains the solid (open known finding '
+                'F11: theta != 0)', defines=('VERIF_PARA=2',), precut=SCP, known=['F11'], **R))
 for ax in 'xyz':
     OBLS.append(Obl('C09.5/plane_' + ax, CL, 'obl_c09_clip_plane_' + ax, 'B', 'SurfaceClipper(PlaneAligned<%s>): interior inside, exterior keeps the inside part' % ax, **R))
     OBLS.append(Obl('C09.5/cyl_' + ax, CL, 'obl_c09_clip_cyl_' + ax, 'B', 'SurfaceClipper(CylAligned<%s>): inscribed square inside the cylinder, exterior = circumscribed square' % ax, **R))
